@@ -134,6 +134,9 @@ func writeProject(base string, content map[string][]Tok, prependJSIGHT bool) (*p
 
 func (p *project) rel(path string) string {
 	if r, err := filepath.Rel(p.dir, path); err == nil {
+		if r == "lnkroot.jst" {
+			return "root.jst" // the root file named through a symbolic link
+		}
 		return r
 	}
 	return path
@@ -329,6 +332,21 @@ func c07One(res *Result, base string, cs *c07Case, distinct map[string]struct{})
 		rootPath = p.dir + "//root.jst"
 	case 3:
 		rootPath = p.dir + "/sub/../root.jst"
+		if ((res.Cases+spellingSeed)/4)%2 == 1 {
+			// the root file the caller names is a symbolic link (in the project directory) to a file that lives elsewhere,
+			// next to decoys with the names of the project's files: INCLUDE is relative to the file the caller named
+			else_ := filepath.Join(base, "elsewhere")
+			_ = os.MkdirAll(filepath.Join(else_, "sub"), 0o755)
+			for n := range p.files {
+				_ = os.WriteFile(filepath.Join(else_, n), []byte("TYPE @decoy any\n"), 0o644)
+			}
+			_ = os.WriteFile(filepath.Join(else_, "real-root.jst"), []byte(p.files["root.jst"].text), 0o644)
+			_ = os.Remove(filepath.Join(p.dir, "lnkroot.jst"))
+			if os.Symlink(filepath.Join(else_, "real-root.jst"), filepath.Join(p.dir, "lnkroot.jst")) == nil {
+				rootPath = filepath.Join(p.dir, "lnkroot.jst")
+				res.count("root-is-a-symlink")
+			}
+		}
 	}
 	replay["root_path_spelling"] = (res.Cases + spellingSeed) % 4
 	var c *core.JApiCore
@@ -356,6 +374,22 @@ func c07One(res *Result, base string, cs *c07Case, distinct map[string]struct{})
 		for _, t := range tt {
 			if t.T == "I" && len(t.P) > 0 && t.P[0] == "root.jst" {
 				reentersRoot = true
+			}
+		}
+	}
+	if strings.HasSuffix(rootPath, "lnkroot.jst") {
+		// the public entry point on the link: every file it opens has to be a file of the project directory
+		var ops2 []string
+		core.VerifFileAccessObserver = func(op, path string) { ops2 = append(ops2, p.rel(path)) }
+		func() {
+			defer func() { _ = recover() }()
+			_, _ = kit.NewJapi(rootPath)
+		}()
+		core.VerifFileAccessObserver = func(op, path string) { ops = append(ops, p.rel(path)) }
+		for _, o := range ops2 {
+			if strings.HasPrefix(o, "..") || filepath.IsAbs(o) {
+				res.mismatch("c07:opened-outside-project", fmt.Sprintf("root named through a symbolic link: kit.NewJapi hands these paths to the OS: %v", ops2), replay)
+				return
 			}
 		}
 	}
